@@ -9,21 +9,22 @@ SPEC = {
     "rule": ("rapid-generated grpc/json ammo over the example TargetService (Hello/Auth/List/Order): payload field subsets, unicode and "
              "template-looking strings, int64 as number (|v| <= 2^53) or as string (full range), camelCase or snake_case keys, unknown "
              "fields, ill-typed values, unknown methods; metadata maps (lower-case keys, printable values); handlers that stall beyond "
-             "the timeout; timeout 150 ms - 1 s; shared-client on/off; 1-4 instances; pool built by config.DecodeAndValidate, real grpc "
+             "the timeout; timeout 150 ms - 1 s; shared-client on/off; 1-4 instances; one file in six is 150-400 entries long (beyond the provider's read-ahead, so its ammo objects "
+             "get recycled); pool built by config.DecodeAndValidate, real grpc "
              "gun (reflection + dynamic messages), real phout. Non-trivial = metadata beyond the entry marker, or an invalid entry mixed "
              "with valid ones, or >= 2 instances; distinct = hash of the case. "
              "TestGRPCScenario: generated grpc/scenario descriptions (YAML): a csv users source handed out by a prepare preprocessor "
              "(source.users[next]), a variables source, a leading Auth call and 1-3 List/Order calls with multiplicities 1-3; payload "
              "templates from the Auth response of the same invocation (token, userId) and from sources; 0-4 metadata entries per call "
              "whose values are literals or templates over the source, the row of this invocation or the captured token / userId; 1-10 "
-             "invocations by 1-4 instances. The recording server issues a unique token and user id per Auth call; calls are grouped "
+             "invocations by 1-4 instances, gun timeout 0.4 / 1 / 3 s (every call must arrive with a deadline no later than it). The recording server issues a unique token and user id per Auth call; calls are grouped "
              "into invocations by that token. Non-trivial = a metadata value that differs per invocation and >= 2 invocations."),
     "floors": {"TestGRPCScenario/metadata_per_invocation_value": 0.4, "TestGRPCScenario/metadata_from_earlier_response": 0.25,
                "TestGRPCScenario/per_invocation_metadata_with_concurrent_instances": 0.2, "TestGRPCScenario/multiplicity_gt_1": 0.4,
                "TestGRPCScenario/rows_wrap_around": 0.3,
                "TestGRPCJSON/metadata": 0.5, "TestGRPCJSON/invalid_mixed_with_valid": 0.3, "TestGRPCJSON/stalled_call": 0.1,
                "TestGRPCJSON/shared_client": 0.3, "TestGRPCJSON/instances_ge_2": 0.4, "TestGRPCJSON/invalid_unknown_method": 0.2,
-               "TestGRPCJSON/invalid_wrong_type": 0.2, "TestGRPCJSON/invalid_unknown_field": 0.2},
+               "TestGRPCJSON/invalid_wrong_type": 0.2, "TestGRPCJSON/invalid_unknown_field": 0.2, "TestGRPCJSON/file_longer_than_read_ahead": 0.08},
     "manifest": {
         "technique": "differential property testing (rapid): gun's reflection/dynamic-message path vs protojson into the generated request types, observed at a recording gRPC server",
         "text": ("Per valid entry the recording server must have received exactly one call of the named method whose message is "
